@@ -19,6 +19,11 @@ Theorem C03_kahn_sound (V : list node) (E : list edge) (ents l : list node) :
   Permutation l V /\ (forall u v, In (u, v) E -> before l u v).
 Proof. intros HV HE Hwf Hn He. exact (topo_sound_perm V E HE Hwf ents Hn He l HV). Qed.
 
+(* the boolean evaluated by the correspondence runner on the order OBSERVED on the real Model *)
+Theorem C03_is_topo_sound (l : list node) (E : list edge) : is_topo l E = true ->
+  NoDup l /\ forall u v, In (u, v) E -> In u l /\ In v l /\ idx u l < idx v l.
+Proof. exact (is_topo_sound l E). Qed.
+
 (* ---- any graph containing a directed cycle is rejected (RuntimeError), for every order of the entries -------- *)
 Theorem C03_cycle_rejected (V : list node) (E : list edge) (ents : list node) :
   NoDup E -> wf V E ->
@@ -151,6 +156,74 @@ Theorem C03_fanin_twice_refuted :
 Proof. eexists. split; [vm_compute; reflexivity|]. split; [vm_compute; reflexivity|].
   vm_compute. intros H. inversion H as [|? ? Hn _]. apply Hn. simpl. auto. Qed.
 
+
+(* ---- algebraic laws, up to the names of the inserted Concat nodes ------------------------------------------------ *)
+(* a & b  vs  b & a : for ANY two namings nm1 (fresh, injective) and nm2 there is a renaming [rho] of the inserted
+   Concats, fixing every operand node, that maps the graph of  a & b  onto the graph of  b & a  *)
+Theorem C03_merge_comm isc nm1 nm2 (a b : value) :
+  let G1 := merge_graph a b in let G2 := merge_graph b a in
+  wf (fst G1) (snd G1) ->
+  (forall v, In v (fst G1) -> ~ In (nm1 v) (fst G1)) ->
+  (forall u v, In u (fst G1) -> In v (fst G1) -> nm1 u = nm1 v -> u = v) ->
+  exists rho : node -> node,
+    (forall p, In p (fst G1) -> rho p = p) /\
+    (forall x, In x (fst (cmi isc nm2 (fst G2) (snd G2))) <-> exists y, In y (fst (cmi isc nm1 (fst G1) (snd G1))) /\ x = rho y) /\
+    (forall p c, In (p, c) (snd (cmi isc nm2 (fst G2) (snd G2))) <->
+                 exists p0 c0, In (p0, c0) (snd (cmi isc nm1 (fst G1) (snd G1))) /\ p = rho p0 /\ c = rho c0).
+Proof. exact (merge_comm isc nm1 nm2 a b). Qed.
+
+(* ... and  b & a  is accepted whenever  a & b  is (so, by symmetry, they are accepted / rejected together) *)
+Theorem C03_merge_comm_accept isc nm1 nm2 (a b : value) :
+  let G1 := merge_graph a b in let G2 := merge_graph b a in
+  wf (fst G1) (snd G1) ->
+  (forall v, In v (fst G2) -> ~ In (nm2 v) (fst G2)) ->
+  (forall u v, In u (fst G2) -> In v (fst G2) -> nm2 u = nm2 v -> u = v) ->
+  (exists m, merge isc nm1 a b = Ok m) -> exists m', merge isc nm2 b a = Ok m'.
+Proof. exact (merge_comm_status isc nm1 nm2 a b). Qed.
+
+(* m & m : a model in which only Concat nodes have several parents (true of every model built by Model(...), see
+   C03_fanin_indegree) is reproduced exactly, with no new Concat, whatever the naming *)
+Theorem C03_merge_idem isc nm (m : model) :
+  let V := mNodes m in let E := mEdges m in
+  NoDup E -> wf V E -> (forall x, In x V -> isc x = false -> indeg E x <= 1) ->
+  let G := merge_graph (VModel m) (VModel m) in
+  (forall x, In x (fst (cmi isc nm (fst G) (snd G))) <-> In x V) /\
+  (forall e, In e (snd (cmi isc nm (fst G) (snd G))) <-> In e E).
+Proof. exact (merge_idem isc nm m). Qed.
+
+(* chaining: (a >> b) >> c  vs  a >> (b >> c).  General statement (NOT proved here): *)
+Definition C03_chain_assoc_full_statement : Prop :=
+  forall isc nm1 nm2 nm3 nm4 (a b c : value) (m1 m2 m3 m4 : model),
+    (forall x, In x (v_nodes a) -> ~ In x (v_nodes b) /\ ~ In x (v_nodes c)) ->
+    (forall x, In x (v_nodes b) -> ~ In x (v_nodes c)) ->
+    (forall nm V, In (nm, V) [(nm1, fst (link_graph [a] [b])); (nm2, fst (link_graph [VModel m1] [c]));
+                             (nm3, fst (link_graph [b] [c])); (nm4, fst (link_graph [a] [VModel m3]))] ->
+       (forall v, In v V -> ~ In (nm v) V /\ isc (nm v) = true) /\ (forall u v, In u V -> In v V -> nm u = nm v -> u = v)) ->
+    link isc nm1 [a] [b] = Ok m1 -> link isc nm2 [VModel m1] [c] = Ok m2 ->
+    link isc nm3 [b] [c] = Ok m3 -> link isc nm4 [a] [VModel m3] = Ok m4 ->
+    exists rho : node -> node,
+      (forall p, In p (v_nodes a ++ v_nodes b ++ v_nodes c) -> rho p = p) /\
+      (forall x, In x (mNodes m4) <-> exists y, In y (mNodes m2) /\ x = rho y) /\
+      (forall p q, In (p, q) (mEdges m4) <-> exists p0 q0, In (p0, q0) (mEdges m2) /\ p = rho p0 /\ q = rho q0).
+
+(* Proved part: exhaustively for operands drawn from six shapes (node; chain; fan-out with two outputs; fan-in with an
+   inner Concat; two isolated nodes; chain + isolated node) on disjoint ids — 216 triples — with the canonical naming
+   "Concat in front of v is 1000+v", under which both sides must be literally the same sets. *)
+Definition shapes (o : nat) : list expr :=
+  [ ENode o;
+    ELink [] [ENode o] [ENode (o + 1)];
+    ELink [] [ENode o] [ENode (o + 1); ENode (o + 2)];
+    ELink [] [ENode o; ENode (o + 1)] [ENode (o + 2)];
+    EMerge [] (ENode o) (ENode (o + 1));
+    EMerge [] (ELink [] [ENode o] [ENode (o + 1)]) (ENode (o + 2)) ].
+Definition assoc_ok (a b c : expr) : bool :=
+  let ev := eval (fun n => 1000 <=? n) 1000 in
+  same_model (ev (ELink [] [ELink [] [a] [b]] [c])) (ev (ELink [] [a] [ELink [] [b] [c]])).
+
+Theorem C03_chain_assoc_partial :
+  forallb (fun a => forallb (fun b => forallb (fun c => assoc_ok a b c) (shapes 20)) (shapes 10)) (shapes 0) = true.
+Proof. vm_compute. reflexivity. Qed.
+
 (* ---- non-vacuity ------------------------------------------------------------------------------------------------ *)
 (* a diamond 0 -> {1,2} -> 3 given as Model(nodes, edges): Concat 100 inserted before 3; entries [0], exits [3] *)
 Example C03_diamond_example :
@@ -185,6 +258,7 @@ Proof. split; [vm_compute; reflexivity|]. split; [vm_compute; reflexivity|].
   eapply reachS; [simpl; eauto|]. eapply reachS; [simpl; eauto 6|]. apply reach1. simpl; auto 6. Qed.
 
 Print Assumptions C03_kahn_sound.
+Print Assumptions C03_is_topo_sound.
 Print Assumptions C03_cycle_rejected.
 Print Assumptions C03_dag_accepted.
 Print Assumptions C03_kahn_total.
@@ -204,3 +278,7 @@ Print Assumptions C03_fanin_no_duplicates.
 Print Assumptions C03_fanin_indegree.
 Print Assumptions C03_fanin_received_once.
 Print Assumptions C03_fanin_twice_refuted.
+Print Assumptions C03_merge_comm.
+Print Assumptions C03_merge_comm_accept.
+Print Assumptions C03_merge_idem.
+Print Assumptions C03_chain_assoc_partial.
